@@ -154,6 +154,19 @@ class ClassModel:
             r = self._resolve_owner(cname, "__init__")
             if r is not None:
                 self._method(r[1], r[0])(obj, *args, **kwargs)
+            elif any(ast.unparse(d).split("(")[0].split(".")[-1] == "dataclass" for d in c.decorator_list):
+                fields = [(n.target.id, n.value) for n in c.body if isinstance(n, ast.AnnAssign) and isinstance(n.target, ast.Name)]
+                if len(args) > len(fields):
+                    raise AnalysisError(f"{self.where}: {cname}() takes {[f for f, _ in fields]}")
+                given = dict(zip([f for f, _ in fields], args))
+                given.update(kwargs)
+                for f, default in fields:
+                    if f in given:
+                        obj.__dict__[f] = given[f]
+                    elif default is not None:
+                        obj.__dict__[f] = self._ev().ev(default)
+                    else:
+                        raise AnalysisError(f"{self.where}: {cname}() missing field {f}")
             return obj
 
         return make
